@@ -3578,4 +3578,155 @@ theorem exQuery_setop_tab (env : Env) (ctx : Ctx) (first : Branch) (rest : List 
   simp only [exQuery, sqBranch_tab env first _ hf, sqOpBranches_tab env rest _ hr]
 
 
+/-! ### the statement over a set operation -/
+
+/-- (select items, FROM clause) of the branches -/
+def setopParts (first : Branch) (rest : List OpBranch) : List (List Item × List FromExpr) :=
+  branchParts first :: rest.map opBranchParts
+
+/-- the pairs a LATER branch contributes: item `i` of the branch goes to the column named by item `i` of the FIRST branch -/
+def unionBranchPairs (env : Env) (tgt : List String) (its1 : List Item) (b : List Item × List FromExpr) : List (Node × Node) :=
+  (b.1.zip its1).flatMap (fun ii =>
+    match ii.1 with
+    | .mk e _ _ => (refs e).flatMap (fun r =>
+        (srcKeys env.importDefault (fromTabs env b.2) (normRef r)).map (fun x => (x, (tgtCol env tgt ii.2).key))))
+
+/-- **specification, set operation**: the first branch by its own item names, the other branches by position -/
+def specPairsUnion (env : Env) (tgt : List String) (parts : List (List Item × List FromExpr)) : List (Node × Node) :=
+  match parts with
+  | [] => []
+  | b1 :: rest => specPairs env tgt b1.1 b1.2 ++ rest.flatMap (unionBranchPairs env tgt b1.1)
+
+/-- a table of the group has the same alias attribute wherever else it occurs in the statement (the alias edges of ALL
+    branches are in the holder when a group is resolved) -/
+def aliasConsistent (all grp : List DObj) : Bool :=
+  all.all (fun o => !(grp.any (fun o' => o'.d == o.d)) || grp.any (fun o' => o'.d == o.d && o'.alias == o.alias))
+
+/-- INSERT / CTAS / VIEW over `first UNION … rest`: flat branches over base tables, the written table read nowhere, the
+    same number of items in every branch, every item of the first branch has a source column and the first branch's item
+    names are pairwise different -/
+def fragSetop (env : Env) (tgt : List String) : Query → Bool
+  | .setop first rest =>
+    let parts := setopParts first rest
+    let all := parts.flatMap (fun b => fromTabs env b.2)
+    let T := (mkTable env tgt none).d
+    branchOK first && rest.all opBranchOK && !(all.any (fun o => o.d == T)) &&
+      parts.all (fun b => aliasesUnambiguous (fromTabs env b.2) && aliasConsistent all (fromTabs env b.2) &&
+        b.1.all (itemOK env.importDefault (fromTabs env b.2) (some T)) &&
+        (b.1.length == (branchParts first).1.length)) &&
+      (branchParts first).1.all (fun it =>
+        !(KEYSof env.importDefault (fromTabs env (branchParts first).2) (colSpecOf env it)).isEmpty) &&
+      decide (((branchParts first).1.map (fun it => (tgtCol env tgt it).key)).Nodup)
+  | _ => false
+
+def fragStmtSetop (env : Env) : Stmt → Bool
+  | .insert _ _ tgt none q _ => fragSetop env tgt q
+  | .ctas tgt _ _ q _ => fragSetop env tgt q
+  | .createView tgt _ none q => fragSetop env tgt q
+  | _ => false
+
+def stmtParts : Stmt → List (List Item × List FromExpr)
+  | .insert _ _ _ _ (.setop first rest) _ => setopParts first rest
+  | .ctas _ _ _ (.setop first rest) _ => setopParts first rest
+  | .createView _ _ _ (.setop first rest) => setopParts first rest
+  | _ => []
+
+theorem aliasOK_sub {g : LGraph} {all grp : List DObj} (hA : AliasOK g all) (hsub : ∀ o ∈ grp, o ∈ all)
+    (hc : aliasConsistent all grp = true) : AliasOK g grp := by
+  refine ⟨fun d a hin => ?_, fun o ho => hA.node o (hsub o ho)⟩
+  obtain ⟨o0, ho0, hd0⟩ := List.any_eq_true.mp hin
+  have hinAll : all.any (·.d == d) = true := List.any_eq_true.mpr ⟨o0, hsub o0 ho0, hd0⟩
+  rw [hA.edge d a hinAll]
+  constructor
+  · rintro ⟨o, ho, hod, hoa⟩
+    have := List.all_eq_true.mp hc o ho
+    simp only [Bool.or_eq_true, Bool.not_eq_true'] at this
+    rcases this with h1 | h1
+    · have h2 : grp.any (fun o' => o'.d == o.d) = true := by rw [hod]; exact hin
+      rw [h1] at h2; cases h2
+    · obtain ⟨o', ho', h3⟩ := List.any_eq_true.mp h1
+      simp only [Bool.and_eq_true, beq_iff_eq] at h3
+      exact ⟨o', ho', by rw [h3.1, hod], by rw [h3.2, hoa]⟩
+  · rintro ⟨o, ho, hod, hoa⟩
+    exact ⟨o, hsub o ho, hod, hoa⟩
+
+theorem nocol_foldl_addReadO : ∀ (l : List DObj) (g : LGraph), (∀ o ∈ l, isTabRef o = true) →
+    (∀ m ∈ g.nodes, m.isCol = false) → ∀ m ∈ (l.foldl addReadO g).nodes, m.isCol = false
+  | [], _, _, h => h
+  | o :: r, g, hl, h => by
+    obtain ⟨s, n, a, rfl⟩ := tabRef_cases o (hl o (by simp))
+    simp only [List.foldl_cons]
+    apply nocol_foldl_addReadO r _ (fun o ho => hl o (by simp [ho]))
+    intro m hm
+    rw [addReadO_tab, mem_nodes_addEdge, mem_nodes_setTag] at hm
+    rcases hm with (hm | hm) | hm | hm
+    · exact h m hm
+    · rw [hm]; rfl
+    · rw [hm]; rfl
+    · rw [hm]; rfl
+
+theorem branchParts_feOK (b : Branch) (h : branchOK b = true) : (branchParts b).2.all feOK = true := by
+  cases b with
+  | mk q br =>
+    cases q with
+    | setop _ _ => simp [branchOK] at h
+    | withq _ _ => simp [branchOK] at h
+    | select d its frm wh grp hav =>
+      simp only [branchOK, Bool.and_eq_true] at h
+      exact h.1.2
+
+theorem setopParts_feOK (first : Branch) (rest : List OpBranch) (hf : branchOK first = true)
+    (hr : rest.all opBranchOK = true) : ∀ b ∈ setopParts first rest, b.2.all feOK = true := by
+  intro b hb
+  unfold setopParts at hb
+  rcases List.mem_cons.mp hb with rfl | hb
+  · exact branchParts_feOK first hf
+  · obtain ⟨ob, hob, rfl⟩ := List.mem_map.mp hb
+    cases ob with
+    | mk op b' =>
+      have := List.all_eq_true.mp hr _ hob
+      exact branchParts_feOK b' this
+
+theorem unionBranchPairs_spec (env : Env) (tgt : List String) (its1 : List Item) (b : List Item × List FromExpr)
+    (x : Node × Node) :
+    x ∈ posPairs (KEYSof env.importDefault (fromTabs env b.2))
+        ((b.1.map (colSpecOf env)).zip (its1.map (tgtCol env tgt))) ↔
+      x ∈ unionBranchPairs env tgt its1 b := by
+  unfold posPairs unionBranchPairs KEYSof
+  rw [List.zip_map]
+  simp only [List.mem_flatMap, List.mem_map]
+  constructor
+  · rintro ⟨cw, ⟨ii, hii, rfl⟩, a, ⟨r, hr, ha⟩, rfl⟩
+    refine ⟨ii, hii, ?_⟩
+    obtain ⟨⟨e, al, kw⟩, it1⟩ := ii
+    simp only [Prod.map_apply] at hr ⊢
+    rw [colSpecOf_srcs] at hr
+    obtain ⟨r0, hr0, rfl⟩ := List.mem_map.mp hr
+    exact List.mem_flatMap.mpr ⟨r0, hr0, List.mem_map.mpr ⟨a, ha, rfl⟩⟩
+  · rintro ⟨ii, hii, hx⟩
+    obtain ⟨⟨e, al, kw⟩, it1⟩ := ii
+    obtain ⟨r0, hr0, hx'⟩ := List.mem_flatMap.mp hx
+    obtain ⟨a, ha, rfl⟩ := List.mem_map.mp hx'
+    refine ⟨_, ⟨(.mk e al kw, it1), hii, rfl⟩, a, ⟨normRef r0, ?_, ha⟩, rfl⟩
+    simp only [Prod.map_apply]
+    rw [colSpecOf_srcs]
+    exact List.mem_map.mpr ⟨r0, hr0, rfl⟩
+
+theorem specPairsUnion_isCol (env : Env) (tgt : List String) (parts : List (List Item × List FromExpr)) :
+    ∀ p ∈ specPairsUnion env tgt parts, p.1.isCol = true := by
+  intro p hp
+  cases parts with
+  | nil => cases hp
+  | cons b1 rest =>
+    simp only [specPairsUnion, List.mem_append, List.mem_flatMap] at hp
+    rcases hp with hp | ⟨b, _, hp⟩
+    · exact (specPairs_isCol env tgt b1.1 b1.2 p hp).1
+    · unfold unionBranchPairs at hp
+      obtain ⟨ii, _, hii⟩ := List.mem_flatMap.mp hp
+      obtain ⟨⟨e, a, k⟩, it1⟩ := ii
+      obtain ⟨r, _, hx⟩ := List.mem_flatMap.mp hii
+      obtain ⟨x, hx', rfl⟩ := List.mem_map.mp hx
+      exact srcKeys_isCol _ _ _ x hx'
+
+
 end SqlLineage.ColumnsExact
